@@ -36,6 +36,7 @@ type job struct {
 	seed    uint64
 	launder uint64 // != 0: pass the rules through a RuleManager first (random recipe from this seed)
 	plan    *plan  // directed laundering recipe
+	hist    uint64 // != 0: a sequential history on a long-lived world with this seed
 }
 
 // start launches the evaluation workers. The list of cases is fixed by seed and tier; the workers
@@ -206,8 +207,94 @@ func witnessOf(c *Case, o *outcome) map[string]interface{} {
 }
 
 // handle evaluates one case and does all the accounting.
+const histSteps = 14
+
+// runWorld: sequential history; with conc additionally the three concurrent phases.
+func (x *runner) runWorld(lc *local, seed uint64, conc bool) {
+	w := newWorld(seed)
+	if w == nil {
+		lc.count("worlds_not_built", 1)
+		return
+	}
+	if !conc {
+		lc.count("worlds_sequential", 1)
+		w.runSequential(x, lc, histSteps)
+		return
+	}
+	lc.count("worlds_concurrent", 1)
+	w.runSequential(x, lc, 3)
+	w.runConcurrent(x, "readers-only", 4, 10, 0)
+	w.runConcurrent(x, "rule-updates", 4, 14, 10)
+	w.runConcurrent(x, "store-label-updates", 4, 14, 10)
+	// and the long-lived objects once more, sequentially, after the concurrent updates
+	for ri := range w.regions {
+		w.fit(x, lc, ri, "history_fit", ":only-with-long-lived-objects")
+	}
+}
+
+// judged accounts for and reports one judged result of the history families. suffix is appended to
+// the key when the same visible case fits correctly on fresh objects.
+func (x *runner) judged(lc *local, tag string, c *Case, o *outcome, suffix string, seed uint64, wit func() map[string]interface{}) {
+	r := x.r
+	lc.evals++
+	lc.count("cases_"+tag, 1)
+	if o == nil || c == nil {
+		return
+	}
+	if o.Skip != "" {
+		lc.count("skipped_ambiguous", 1)
+		lc.count("skipped_ambiguous:"+o.Skip, 1)
+		return
+	}
+	lc.count("judged", 1)
+	if br := o.brute; br != nil {
+		lc.count("assignments_examined", int64(br.total))
+		lc.count("valid_assignments", int64(br.valid))
+		lc.count("comparator_pairs_checked", int64(o.pairs))
+		if s, ok := o.GotSat.(bool); ok && s {
+			lc.count("cases_satisfied", 1)
+		}
+		if br.valid >= 2 {
+			r.Distinct(o.shape + "|" + tag)
+		}
+	}
+	for _, f := range o.Findings {
+		if strings.HasPrefix(f.Key, "harness:") {
+			r.Inconclusive("%s: %s (%s)", f.Key, f.What, tag)
+			continue
+		}
+		plainFails := hasKey(judge(c, seed, nil), f.Key)
+		key := f.Key
+		if !plainFails {
+			key += suffix
+		}
+		lc.count("refuted:"+key, 1)
+		x.mu.Lock()
+		seen := x.reported[key]
+		x.reported[key] = true
+		x.mu.Unlock()
+		if seen {
+			lc.count("refuted_further_cases", 1)
+			continue
+		}
+		w := map[string]interface{}{"tag": tag, "case_seed": seed, "original": witnessOf(c, o), "history": wit()}
+		what := f.What
+		if plainFails {
+			min := shrink(c, f.Key, seed)
+			w["minimal"] = witnessOf(min, judge(min, seed, nil))
+		} else {
+			what += " [the same visible stores / region / rules as fresh objects are fitted correctly: the long-lived objects carry state that differs from what they show; see history.steps]"
+		}
+		r.Violation(key, what, w)
+	}
+}
+
 func (x *runner) handle(lc *local, j job) {
 	r := x.r
+	if j.hist != 0 {
+		x.runWorld(lc, j.hist, false)
+		return
+	}
 	c, tag, idx, seed := j.c, j.tag, j.idx, j.seed
 	var lr *launderResult
 	var o *outcome
@@ -353,6 +440,10 @@ func (x *runner) replay(path string) {
 			Original struct {
 				Case *Case `json:"case"`
 			} `json:"original"`
+			History *struct {
+				Seed uint64 `json:"world_seed"`
+				Kind string `json:"kind"`
+			} `json:"history"`
 			Laundered *struct {
 				Base *Case  `json:"base_case"`
 				Seed uint64 `json:"launder_seed"`
@@ -367,6 +458,16 @@ func (x *runner) replay(path string) {
 	n := 0
 	lc := newLocal()
 	defer func() { lc.flush(r) }()
+	if h := doc.Witness.History; h != nil && h.Seed != 0 {
+		for rep := 0; rep < 5; rep++ { // concurrent phases are not deterministic: a few repetitions
+			x.runWorld(lc, h.Seed, strings.HasPrefix(h.Kind, "concurrent"))
+			if !strings.HasPrefix(h.Kind, "concurrent") {
+				break
+			}
+		}
+		r.Distinct("replay-history")
+		n++
+	}
 	if l := doc.Witness.Laundered; l != nil && l.Base != nil {
 		x.handle(lc, job{c: l.Base, tag: "replay", idx: 100, seed: doc.Witness.Seed, launder: l.Seed, plan: l.Plan})
 		r.Distinct("replay-laundered")
@@ -391,6 +492,7 @@ func main() {
 	r.Assume("FitRegion is called with a StoreSet that holds every store of the cluster (GetStores) and resolves every peer's store (GetStore); peers sit on distinct stores, roles are Voter/Learner only (no joint-consensus roles), exactly one leader and it is a voter, counts >= 1, label keys unique per store")
 	r.Assume("zones the statement does not decide (letter case of keys/values, empty label values, stores lacking a location label of a rule) are judged only when all readings agree on every primitive; otherwise skipped_ambiguous")
 	r.Assume("laundered mode (40% of the random cases + a directed family): the rule list is stored in a real placement.RuleManager (memory kv), fetched back via GetRule / GetAllRules / GetRulesForApplyRegion / GetRulesByKey (+Clone), visible fields of harness-owned copies are edited in place, optionally SetRule + re-fetch, and those objects go to FitRegion; the model reads only their exported fields. Rule lists the manager rejects (e.g. leader rule with count > 1) are judged as plain literals and counted")
+	r.Assume("history families: one core.BasicCluster + one RuleManager + three regions live across a history (store labels replaced by Clone(SetStoreLabels)+PutStore, rules by SetRule/SetRules/DeleteRule and get-edit-set incl. injected storage write failures, regions by RegionInfo.Clone(With...)); entry point RuleManager.FitRegion(cluster, region); the case judged is read back from what the objects show. Concurrent phases are free running: a reader's result is judged against the rule objects it reports and the store objects its own call was handed (recording view); calls whose listing and per-peer lookups disagree in a way that triggers the implementation's 'rule matches no store' shortcut are skipped; hidden lazily-written state is left to the race detector")
 	quietLogs()
 	x := &runner{r: r, reported: map[string]bool{}}
 	if r.Replay != "" {
@@ -444,7 +546,18 @@ func main() {
 		}
 		x.jobs <- j
 	}
+	// phase 3: sequential histories on long-lived worlds (jobs), then worlds with concurrent phases
+	nh := r.Pick(400, 600)
+	for i := 0; i < nh; i++ {
+		x.jobs <- job{hist: rng.Uint64() | 1}
+	}
 	x.wait()
+	lc := newLocal()
+	nc := r.Pick(40, 60)
+	for i := 0; i < nc; i++ {
+		x.runWorld(lc, rng.Uint64()|1, true)
+	}
+	lc.flush(r)
 	r.Set("workers_per_process", fmt.Sprint(workers))
 	r.Floor(int64(n))
 	pprof.StopCPUProfile()
